@@ -9,43 +9,30 @@ COMMON_TRUSTED = [
     "Go toolchain and the harness' rendering of values/cases into Coq syntax",
 ]
 
-PROPS = {
-    "C07": {
-        "cmd": "c07",
-        "trusted": ["modelled: Value.Compare of every kind, types.Compare, comparison operators, IN, array quantifiers, POSITION, INCLUDES, SORT, SORTED as functions of vcompare",
-                    "guard in the theorems: ints within +-2^53, finite floats, no duplicate object keys"],
-        "assumptions": ["float64(int64) conversion is exact within +-2^53 (IEEE-754)"],
-    },
-}
+PROPS = {}
+
+
+def _load():
+    """every lib/p_<id>.py defines CONFIG (dict) and optionally describe(meta,
+    fname, t) -> case dict, and match_extra(case, matcher_key, matcher_value)."""
+    import importlib, glob, os
+    here = os.path.dirname(os.path.abspath(__file__))
+    for f in sorted(glob.glob(os.path.join(here, "p_c*.py"))):
+        name = os.path.basename(f)[:-3]
+        mod = importlib.import_module(name)
+        pid = name[2:].upper()
+        PROPS[pid] = mod.CONFIG
+        MODS[pid] = mod
+
+
+MODS = {}
 
 
 def describe(pid, meta, fname, t):
-    fn = globals().get("describe_" + pid)
-    if fn:
-        return fn(meta, fname, t)
+    mod = MODS.get(pid)
+    if mod is not None and hasattr(mod, "describe"):
+        return mod.describe(meta, fname, t)
     return {"key": "%s:%s" % (fname, t), "what": "mismatch %s in %s" % (t, fname)}
-
-
-def describe_C07(meta, fname, t):
-    kind, i, j = t
-    U = meta["index"]["U"]
-    K = meta["index"].get("Ukind", [])
-    if kind in (0, 1):
-        a, b = U[i], U[j]
-        names = {0: "sign of Compare", 1: "comparison operators / IN / POSITION / INCLUDES / quantifiers"}
-        return {"key": "%d|%s|%s" % (kind, a, b), "a": a, "b": b,
-                "kinds": [K[i] if K else "", K[j] if K else ""],
-                "what": "%s differs from the total order of the model on a=%s b=%s" % (names[kind], a, b),
-                "theorem": "C07.compare_total_preorder / ops_agree_with_compare", "mkind": kind}
-    if kind == 2:
-        c = meta["index"]["S"][i]
-        return {"key": "2|%s|%d" % (c["input"], j), "input": c["input"], "output": c["out"][j], "via": ["SORT", "SORTED"][j],
-                "what": "%s output is not the input sorted by the total order: input=%s output=%s" % (["SORT", "SORTED"][j], c["input"], c["out"][j]), "mkind": 2, "kinds": c.get("kinds", [])}
-    if kind == 3:
-        c = meta["index"]["P"][i]
-        return {"key": "3|%s|%s" % (c["arr"], c["x"]), "arr": c["arr"], "x": c["x"], "impl": c["pos"],
-                "what": "POSITION(arr, x, true) = %s differs from first index comparing equal: arr=%s x=%s" % (c["pos"], c["arr"], c["x"]), "mkind": 3, "kinds": c.get("kinds", [])}
-    return {"key": "malformed|%s" % (t,), "what": "malformed case row %s" % (t,), "mkind": kind}
 
 
 def match_known(pid, case, known):
@@ -71,7 +58,11 @@ def match_known(pid, case, known):
             elif k == "tag":
                 ok = ok and v in case.get("tags", [])
             else:
-                ok = False
+                mod = MODS.get(pid)
+                ok = ok and mod is not None and hasattr(mod, "match_extra") and bool(mod.match_extra(case, k, v))
         if ok and m:
             return kf
     return None
+
+
+_load()
